@@ -207,6 +207,10 @@ static int mfp_load(struct module_data *m, HIO_HANDLE *f, const int start)
 	D_(D_INFO "Loading samples: %d", mod->ins);
 
 	/* first check smp.filename */
+	if (m->basename == NULL || m->dirname == NULL) {
+		/* not loaded from a path: no companion sample file */
+		goto err;
+	}
 	if (strlen(m->basename) < 5 || m->basename[3] != '.') {
 		D_(D_CRIT "invalid filename %s", m->basename);
 		goto err;
@@ -232,7 +236,7 @@ static int mfp_load(struct module_data *m, HIO_HANDLE *f, const int start)
 	for (i = 0; i < mod->ins; i++) {
 		if (libxmp_load_sample(m, s, SAMPLE_FLAG_FULLREP,
 				&mod->xxs[mod->xxi[i].sub[0].sid], NULL) < 0) {
-			free(s);
+			hio_close(s);
 			return -1;
 		}
 	}
